@@ -17,8 +17,10 @@ import (
 	"net"
 	"net/http"
 	"net/http/httptest"
+	"strconv"
 	"strings"
 	"sync"
+	"syscall"
 	"time"
 
 	"github.com/smallstep/nosql"
@@ -106,6 +108,8 @@ func stepKind(op string, bucket []byte) string {
 		return "acmeRead"
 	case op == "cas" && b == "acme_certs":
 		return "acmeStoreCert"
+	case op == "cas" && b == "acme_serial_certs_index":
+		return "acmeIndex"
 	case op == "cas" && b == "acme_orders":
 		return "acmeUpdateOrder"
 	}
@@ -271,15 +275,25 @@ func webhookServer() *httptest.Server {
 	}))
 }
 
-// closedAddr returns a local address nothing listens on (listen, remember, close).
-func closedAddr() string {
-	l, err := net.Listen("tcp", "127.0.0.1:0")
+// closedAddr returns a local TCP address that refuses connections for as long as release is
+// not called: the port is bound (so no other listener of this process or another can take
+// it while cases run in parallel) but never put into the listening state.
+func closedAddr() (addr string, release func()) {
+	fd, err := syscall.Socket(syscall.AF_INET, syscall.SOCK_STREAM, 0)
 	if err != nil {
-		return "127.0.0.1:1"
+		return "127.0.0.1:1", func() {}
 	}
-	a := l.Addr().String()
-	l.Close()
-	return a
+	if err := syscall.Bind(fd, &syscall.SockaddrInet4{Port: 0, Addr: [4]byte{127, 0, 0, 1}}); err != nil {
+		syscall.Close(fd)
+		return "127.0.0.1:1", func() {}
+	}
+	sa, err := syscall.Getsockname(fd)
+	if err != nil {
+		syscall.Close(fd)
+		return "127.0.0.1:1", func() {}
+	}
+	port := sa.(*syscall.SockaddrInet4).Port
+	return net.JoinHostPort("127.0.0.1", strconv.Itoa(port)), func() { syscall.Close(fd) }
 }
 
 type faultTransport struct {
